@@ -24,6 +24,12 @@ def load(args):
                 meta = json.load(open(mp))
                 ms.append({"id": name, "property": meta["property"], "kind": "break", "note": meta.get("needs", ""),
                            "suite_on_pinned_tree": "PASS", "patch": os.path.join(sd, name, "patch.diff")})
+    bd = os.path.join(VERIF, "seeded_benign")
+    if os.path.isdir(bd):
+        for name in sorted(os.listdir(bd)):
+            if os.path.exists(os.path.join(bd, name, "patch.diff")):
+                ms.append({"id": "benign-" + name, "property": "ALL", "kind": "benign", "note": "independently written behaviour-preserving refactor",
+                           "suite_on_pinned_tree": "PASS", "patch": os.path.join(bd, name, "patch.diff")})
     if args.ids:
         want = set(args.ids.split(","))
         ms = [m for m in ms if m["id"] in want]
@@ -52,6 +58,8 @@ def run_one(m, tier, all_props):
                 open(path, "w").write(s.replace(e["old"], e["new"], 1))
         env = dict(os.environ, VMON_REPO=copy, VMON_OUT=os.path.join(d, "out"), VMON_WORKERS="4")
         props = all_props if (m["kind"] == "benign" and all_props) else [m["property"]]
+        if m["property"] == "ALL":
+            props = [f"C{i:02d}" for i in range(1, 21)]
         outs = []
         status = None
         for pid in props:
